@@ -170,6 +170,8 @@ SPELL = {
     'bare': (t.List, list, t.List[t.Any]),
     'baredict': (t.Dict, dict, t.Dict[t.Any, t.Any], t.Mapping),
     'nested': (t.List[t.Dict[str, int]], list[dict[str, int]], t.List[t.Mapping[str, int]]),
+    'bare_tuple': (t.Tuple, tuple, t.Tuple[t.Any, ...], tuple[t.Any, ...], t.Sequence),
+    'empty_tuple': (t.Tuple[()], tuple[()]),
 }
 for _g in SPELL.values():
     for _ty in _g:
